@@ -26,6 +26,7 @@ type C02Op struct {
 }
 
 type C02Case struct {
+	Transport
 	Ops []C02Op `json:"ops"`
 }
 
@@ -54,6 +55,7 @@ func runC02(c C02Case) (res c02result) {
 	if err != nil {
 		return c02result{Fail: "fixture: " + err.Error()}
 	}
+	c.Transport.apply(b)
 	defer b.Shutdown()
 	S, P := b.Dial("S"), b.Dial("P")
 	if _, err := S.Connect(wire.ConnectPacket("sub", true, 120)); err != nil {
@@ -299,6 +301,7 @@ func genC02(t *rapid.T) C02Case {
 			c.Ops = append(c.Ops, C02Op{K: "ping"})
 		}
 	}
+	c.Transport = genTransport(t)
 	return c
 }
 
